@@ -125,3 +125,10 @@ func (m *Model) Inbound(remote *net.UDPAddr, ext string, now time.Duration) (int
 	}
 	return 0, "", "mapping expired"
 }
+
+
+// Mapping is the exported view of a mapping (used by the end-to-end model).
+type Mapping = mapping
+
+// Ext returns the external address of the mapping.
+func (m *mapping) Ext() string { return m.ext }
